@@ -127,6 +127,14 @@ func init() {
 				}
 			}
 			jobs = append(jobs, "bare:raw", "bare:snp", "single:raw", "single:snp", "single:tn93", "cli")
+			if tier == "thorough" {
+				// three variable columns: the third over {A,C,G,T,R,N,-} in both rows, on a second backbone too
+				for _, m := range []string{"raw", "snp", "tn93"} {
+					for r := 0; r < 289; r += 6 {
+						jobs = append(jobs, fmt.Sprintf("tab3:%s:%d", m, r))
+					}
+				}
+			}
 			return jobs, nil
 		},
 		Exec: func(tier, job string) *engine.JobResult {
@@ -171,6 +179,30 @@ func init() {
 					res.States += len(ts) + 1
 					if r == 34 {
 						res.Sample(c07Case{Measure: p[1], Query: q, Targets: ts[:3]})
+					}
+				}
+			case "tab3":
+				var r0 int
+				fmt.Sscan(p[2], &r0)
+				sub := "ACGTRN-"
+				for r := r0; r < r0+6 && r < 289; r++ {
+					for bi, back := range [][2]string{{c07BackQ, c07BackT}, {"AACCGGTTACGTAC", "AACCGGTTGCGTAA"}} {
+						for _, x3 := range sub {
+							q := back[0] + pairs[r] + string(x3)
+							var ts []string
+							for _, y := range pairs {
+								for _, y3 := range sub {
+									ts = append(ts, back[1]+y+string(y3))
+								}
+							}
+							if (r+bi)%2 == 1 {
+								for i, j := 0, len(ts)-1; i < j; i, j = i+1, j-1 {
+									ts[i], ts[j] = ts[j], ts[i]
+								}
+							}
+							c07Check(c07Case{Measure: p[1], Query: q, Targets: ts}, res, true)
+							res.States += len(ts) + 1
+						}
 					}
 				}
 			case "single":
